@@ -364,8 +364,10 @@ def run(ctx, res):
 
     uz = run_urlize(ctx, res, jinja2, dist, nontrivial)
     e2e = run_e2e(ctx, res, jinja2, dist, nontrivial)
+    fb = run_filter_blocks(ctx, res, jinja2, dist, nontrivial)
     res.coverage.update({
-        "evaluations": evaluations + uz["evaluations"] + e2e["renders"] + dist.get("tojson-oracle", 0),
+        "evaluations": evaluations + uz["evaluations"] + e2e["renders"] + dist.get("tojson-oracle", 0) + fb,
+        "filter_block_renders": fb,
         "distinct_nontrivial": len(nontrivial),
         "rule": ("strings are random concatenations of metacharacters, entity fragments (complete and cut), backslash/\\u escapes, "
                  "every white-space and line-break character, URL/e-mail like fragments and non-ASCII characters; values are str or "
@@ -596,9 +598,101 @@ def run_e2e(ctx, res, jinja2, dist, nontrivial):
     return {"renders": renders, "templates": len(TPL), "samples": [{"family": "e2e", "src": TPL[0][1]}]}
 
 
+# ---------------------------------------------------------------------------------------------------------------------------
+BLOCK_MODES = ["static", "select", "block", "volatile", "volatile_on"]
+
+
+def run_filter_blocks(ctx, res, jinja2, dist, nontrivial):
+    """the six Markup-aware filters applied to a buffered body — `{% filter f(args) %}BODY{% endfilter %}` and
+    `{% set v | f(args) %}BODY{% endset %}{{ v }}` — with data-controlled arguments, in every autoescape configuration (static on,
+    select_autoescape, `{% autoescape true %}` in an environment with autoescape off, runtime-decided `{% autoescape flag %}` with the
+    environment default off and on).  Contract: the filter receives Markup(BODY) and the block writes escape(result); the expected text
+    is computed by the Lean filter models."""
+    from markupsafe import Markup
+
+    rng = ctx.rng("filter-blocks")
+    bodies = ["a b\nc d e", "<p>a b</p>\n<p>c d e</p>", "x & y <i>z</i> w", "a"]
+    reqs, jobs = [], []
+    for _ in range(ctx.pick(60, 600)):
+        w, y = rstr(rng, 2), rstr(rng, 2)
+        body = rng.choice(bodies)
+        specs = [
+            ("replace", "' ', w", [Atom("c24"), Atom("replace"), True, V(Markup(body)), V(" "), V(w), Atom("none")]),
+            ("replace", "'a', w, 1", [Atom("c24"), Atom("replace"), True, V(Markup(body)), V("a"), V(w), 1]),
+            ("replace", "y, w", [Atom("c24"), Atom("replace"), True, V(Markup(body)), V(y), V(w), Atom("none")]),
+            ("indent", "w, true", [Atom("c24"), Atom("indent"), V(Markup(body)), [Atom("str"), V(w)], True, False]),
+            ("indent", "w, false, true", [Atom("c24"), Atom("indent"), V(Markup(body)), [Atom("str"), V(w)], False, True]),
+            ("truncate", "9, true, w[:3], 0", [Atom("c24"), Atom("truncate"), V(Markup(body)), 9, True, V(w[:3]), 0]),
+            ("truncate", "9, false, w[:3], 0", [Atom("c24"), Atom("truncate"), V(Markup(body)), 9, False, V(w[:3]), 0]),
+            ("wordwrap", "3, true, w", [Atom("c24"), Atom("wordwrap"), V(Markup(body)), V(w),
+                                        [[ln, textwrap.wrap(ln, width=3, expand_tabs=False, replace_whitespace=False, break_long_words=True,
+                                                            break_on_hyphens=True)] for ln in sorted(set(body.splitlines()))]]),
+            ("join", "w", [Atom("c24"), Atom("join"), True, [V(ch) for ch in body], V(w)]),
+        ]
+        fbody = rng.choice(["[%s]", "<i>%s</i> %%", "%s%s"])
+        fargs = [w] if fbody.count("%s") == 1 else [w, y]
+        specs.append(("format", "w" if len(fargs) == 1 else "w, y", [Atom("c24"), Atom("format"), V(Markup(fbody)), [V(a) for a in fargs]]))
+        for f, targs, req in specs:
+            b = fbody if f == "format" else body
+            if not wire_ok(core.sx(req)):
+                continue
+            reqs.append(req)
+            jobs.append((f, targs, b, {"w": w, "y": y, "flag": True}))
+    replies = core.driver_batch(reqs)
+    esc_reqs, esc_idx = [], {}
+    for i, rep in enumerate(replies):
+        if rep[0] == "ok" and str(rep[1][0]) == "plain":
+            esc_idx[i] = len(esc_reqs)
+            esc_reqs.append([Atom("c24"), Atom("escape"), rep[1][1]])
+    esc = core.driver_batch(esc_reqs)
+    renders = 0
+    envs = {}
+    for mode in BLOCK_MODES:
+        if mode == "select":
+            envs[mode] = jinja2.Environment(loader=jinja2.DictLoader({}), autoescape=jinja2.select_autoescape(enabled_extensions=("html",), default=False))
+        else:
+            envs[mode] = jinja2.Environment(loader=jinja2.DictLoader({}), autoescape=mode in ("static", "volatile_on"))
+    wraps = {"static": ("", ""), "select": ("", ""), "block": ("{% autoescape true %}", "{% endautoescape %}"),
+             "volatile": ("{% autoescape flag %}", "{% endautoescape %}"), "volatile_on": ("{% autoescape flag %}", "{% endautoescape %}")}
+    for i, ((f, targs, b, data), rep) in enumerate(zip(jobs, replies)):
+        if rep[0] == "oom":
+            continue
+        if rep[0] == "err":
+            want = "raised"
+        else:
+            want = rep[1][1] if str(rep[1][0]) == "markup" else esc[esc_idx[i]][1][0]
+        for mode in (BLOCK_MODES if not ctx.quick else [BLOCK_MODES[i % 5], "volatile"]):
+            for form, src in (("filter-block", "{% filter " + f + "(" + targs + ") %}" + b + "{% endfilter %}"),
+                              ("filtered-set-block", "{% set v | " + f + "(" + targs + ") %}" + b + "{% endset %}{{ v }}")):
+                full = wraps[mode][0] + src + wraps[mode][1]
+                env = envs[mode]
+                try:
+                    if mode == "select":
+                        env.loader.mapping["t.html"] = full
+                        env.cache.clear()
+                        out = env.get_template("t.html").render(**data)
+                    else:
+                        out = env.from_string(full).render(**data)
+                except Exception as e:  # noqa
+                    out = "raised"
+                renders += 1
+                dist["filter-block"] = dist.get("filter-block", 0) + 1
+                nontrivial.add(("filter-block", f, targs, b, data["w"], mode, form))
+                if out != want:
+                    res.violate(f"C24:{form}:{f}", f"{full!r} with w={data['w']!r} y={data['y']!r} ({mode}) renders {out!r}; contract (filter applied to the "
+                                f"Markup body, plain arguments escaped, result escaped on output) {want!r}",
+                                {"src": full, "data": data, "mode": mode, "autoescape_default": mode in ("static", "volatile_on")})
+    return renders
+
+
 def replay(ctx, case):
     jinja2 = core.import_jinja()
     c = case["case"]
+    if "src" in c and "autoescape_default" in c:
+        try:
+            return {"render": jinja2.Environment(autoescape=c["autoescape_default"]).from_string(c["src"]).render(**c["data"])}
+        except Exception as e:  # noqa
+            return {"raised": f"{type(e).__name__}: {e}"}
     if "src" in c:
         env = jinja2.Environment(autoescape=True)
         env.policies["urlize.extra_schemes"] = ["ftp://"]
